@@ -1,5 +1,6 @@
 """Small syntactic helpers shared by the rule modules."""
 import ast
+import re
 
 from ..effects import is_self, self_attr, walk_no_nested
 from ..srcmodel import AnalysisError, norm_stmt
@@ -173,3 +174,66 @@ def kwarg(call, name, pos=None):
     if pos is not None and len(call.args) > pos:
         return call.args[pos]
     return None
+
+
+# ---------------------------------------------------------------- alpha-tolerant statement text
+_LOCAL = re.compile(r"(?<![\w.'\"])_[A-Za-z]\w*")
+
+
+class Src(str):
+    """Whitespace-normalised source text whose `in` / `count` tolerate a consistent renaming of local names: every identifier of the
+    *pattern* that starts with an underscore and is not an attribute (kafe2's convention for locals and nested helpers) matches any
+    identifier, the same one at each occurrence and different ones for different pattern names. Everything else is literal."""
+
+    _cache = {}
+    # Off: with independent bindings per pattern a swap of two locals between statements is alpha-equivalent to the reference and six catalogue
+    # mutants were missed. Exact text is kept (a pure renaming of locals in a shape-rule function is then reported - documented in DESIGN 10.2).
+    TOLERANT = False
+
+    @staticmethod
+    def _regex(pattern):
+        rx = Src._cache.get(pattern)
+        if rx is None:
+            out, pos, names = [], 0, {}
+            for m in _LOCAL.finditer(pattern):
+                out.append(re.escape(pattern[pos:m.start()]))
+                nm = m.group(0)
+                if nm in names:
+                    out.append("(?P=%s)" % names[nm])
+                else:
+                    names[nm] = "g%d" % len(names)
+                    out.append("(?<![\\w.])(?P<%s>(?!(?:self|np|cls|None|True|False)\\b)[A-Za-z_]\\w*)" % names[nm])
+                pos = m.end()
+                out.append("(?!\\w)")
+            out.append(re.escape(pattern[pos:]))
+            rx = (re.compile("".join(out)), len(names))
+            Src._cache[pattern] = rx
+        return rx
+
+    def _matches(self, pattern):
+        rx, n = Src._regex(pattern)
+        if n == 0:
+            return
+        for m in rx.finditer(self):
+            vals = list(m.groupdict().values())
+            if len(set(vals)) == len(vals):
+                yield m
+
+    def __contains__(self, pattern):
+        if str.__contains__(self, pattern):
+            return True
+        if not Src.TOLERANT:
+            return False
+        for _ in self._matches(pattern):
+            return True
+        return False
+
+    def count(self, pattern, *a):
+        c = str.count(self, pattern, *a)
+        if c or a or not Src.TOLERANT:
+            return c
+        return sum(1 for _ in self._matches(pattern))
+
+
+def src_of(node):
+    return Src(" ".join(ast.unparse(node).split()))
